@@ -40,7 +40,8 @@ def extra_checks(ctx, exes):
     if M3["failed"]:
         ctx.violations.append({"kind": "broken-proof", "case": "Gen_RangeProgram: rprog_check_range_ok", "impl": M3["program"], "model": M3["failed"], "spec": "", "class": "m3",
                                "what": "the program translated from the AST of check_range_doesnt_cross_app_sbx_boundary is no longer provably equal to Ptr.check_range for all inputs"})
-DRIVERS = drivers("BULK", ["memset", "memcpy", "memcmp", "vrange", "usp", "deny", "grant"])
+DRIVERS = drivers("BULK", ["memset", "memcpy", "memcmp", "vrange", "usp", "deny", "grant"]) + \
+    [dict(name="ptr_grant_32", src="ptr.cpp", defines=["VERIF_CFG=verif_cfg32g", "PART_BULK", "PTR_GRANT"], ops=["ggrant32", "gdeny32"])]   # back end WITH grant/deny
 M64 = 1 << 64
 
 
@@ -122,6 +123,27 @@ def gen_cases(tier, rng):
                 if num > APP_SIZE - 64 and num < (1 << 32) and ret and (ret + num <= size):
                     continue     # would read past the application buffer: not a valid request
                 cases.append("grant%s %d %d %d" % (cfg, APP_BASE + 64, num, ret))
+        if cfg == "32":
+            # a back end that can grant / deny access: the source is range-checked BEFORE the back end is asked
+            for src in (0, A + 16, A + size - 64, A + size - 8, A + size - 1, A - 8, A - 1, Bb + 32, Bb - 4, APP_BASE + 64, APP_BASE + APP_SIZE - 4096):
+                for num in (0, 1, 8, 16, 64, 4096):
+                    if src and src >= APP_BASE and src + num > APP_BASE + APP_SIZE - 64:
+                        continue
+                    in_app = APP_BASE <= src and src + num <= APP_BASE + APP_SIZE
+                    in_a = A <= src and src + num <= A + size and observable(src, max(num, 1), A)
+                    outside = all(src + num <= b or src >= b + size for b in (A, Bb))
+                    inside = any(b <= src and src + num <= b + size for b in (A, Bb))
+                    straddles = src != 0 and num > 0 and not outside and not inside      # refused by the range check before anything is read
+                    # the back end accepts: nothing is read or written, every source may be tried
+                    cases.append("ggrant32 %d %d 1 %d %d" % (src, num, A + 8192, 4096))
+                    in_sbx = src == 0 or A <= src < A + size or Bb <= src < Bb + size     # a tainted pointer cannot hold anything else
+                    if in_sbx:
+                        cases.append("gdeny32 %d %d 1 %d" % (src, num, APP_BASE + 128))
+                    # the back end declines: the copy path runs, so the source must be a real buffer (or be refused before)
+                    if in_app or src == 0 or straddles:
+                        cases.append("ggrant32 %d %d 0 %d %d" % (src, num, A + 8192, 4096))
+                    if in_sbx and (in_a or src == 0 or straddles):
+                        cases.append("gdeny32 %d %d 0 %d" % (src, num, APP_BASE + 128))
         for elk in ("char", "int"):
             for cnt in (0, 1, 5):
                 cases.append("vrange%s 0 %s %d" % (cfg, elk, cnt))
